@@ -68,7 +68,18 @@ pub enum Case {
         #[serde(default)]
         plain_first: bool,
     },
-    Reclaim { abandoned: u8, millis: u16, uploads: bool, #[serde(default)] busy: bool },
+    Reclaim {
+        abandoned: u8,
+        millis: u16,
+        uploads: bool,
+        #[serde(default)]
+        busy: bool,
+        /// what the single "next use" of the handler is: 0 plain GET, 1 an
+        /// oversized request without Block1 (answered 4.13), 2 an upload
+        /// block, 3 a Block2 request, 4 an ACK-typed message
+        #[serde(default)]
+        next_use: u8,
+    },
 }
 
 const BUDGET: usize = 96;
@@ -303,7 +314,7 @@ pub fn check(_ctx: &Ctx, c: &Case, acc: &mut Acc) -> Result<(), Fail> {
             }
             acc.nontrivial(fp(c));
         }
-        Case::Reclaim { abandoned, millis, uploads, busy } => {
+        Case::Reclaim { abandoned, millis, uploads, busy, next_use } => {
             let d = Duration::from_millis(*millis as u64);
             let mut h: BlockHandler<CountedEp> = new_handler(BUDGET, d);
             let mine: Vec<CountedEp> = (0..*abandoned as u32).map(|i| CountedEp::new(10 + i, &live)).collect();
@@ -330,7 +341,27 @@ pub fn check(_ctx: &Ctx, c: &Case, acc: &mut Acc) -> Result<(), Fail> {
             // one use of the handler, on a fresh key
             let fresh_live = Arc::new(AtomicIsize::new(0));
             let fresh = CountedEp::new(9999, &fresh_live);
-            do_exchange(&mut h, &fresh, &get(b"fresh", 7, 1, None), &small_reply())?;
+            let mut next = match next_use % 5 {
+                1 => {
+                    let mut r = put(b"fresh", 7, 3, vec![], vec![0x42; 400]);
+                    r.block1 = None;
+                    r
+                }
+                2 => put(b"fresh", 7, 3, block_bytes(0, true, 0), vec![0x42; 16]),
+                3 => get(b"fresh", 7, 1, Some(block_bytes(0, false, 1))),
+                _ => get(b"fresh", 7, 1, None),
+            };
+            if next_use % 5 == 4 {
+                next.mtype = 2;
+            }
+            do_exchange(&mut h, &fresh, &next, &small_reply())?;
+            match next_use % 5 {
+                1 => acc.class("reclamation:next-use-is-an-oversized-request"),
+                2 => acc.class("reclamation:next-use-is-an-upload-block"),
+                3 => acc.class("reclamation:next-use-is-a-block2-request"),
+                4 => acc.class("reclamation:next-use-is-an-ack"),
+                _ => acc.class("reclamation:next-use-is-a-plain-get"),
+            }
             let held = live.load(AO::SeqCst) - mine.len() as isize;
             ensure!(
                 held == 0,
@@ -381,14 +412,14 @@ pub fn run(ctx: &Ctx, rep: &mut Report) {
         || (any::<bool>(), 20u16..=60, any::<bool>(), any::<bool>()).prop_map(|(upload, millis, busy, plain_first)| Case::Expiry { upload, millis, busy, plain_first }),
         check,
     );
-    let n = ctx.cases(32, 200);
+    let n = ctx.cases(48, 300);
     run_prop(
         ctx,
         rep,
         "reclamation-on-next-use",
-        "1..=50 transfers abandoned under distinct endpoints, left idle past the expiry (in half of the cases while the handler stays busy with other keys), one request on a fresh key: no endpoint clone of the abandoned transfers may remain alive inside the handler",
+        "1..=50 transfers abandoned under distinct endpoints, left idle past the expiry (in half of the cases while the handler stays busy with other keys), one use of the handler on a fresh key (a plain GET, an oversized request without Block1, an upload block, a Block2 request or an ACK-typed message): no endpoint clone of the abandoned transfers may remain alive inside the handler",
         n,
-        || (1u8..=50, 20u16..=40, any::<bool>(), any::<bool>()).prop_map(|(abandoned, millis, uploads, busy)| Case::Reclaim { abandoned, millis, uploads, busy }),
+        || (1u8..=50, 20u16..=40, any::<bool>(), any::<bool>(), 0u8..5).prop_map(|(abandoned, millis, uploads, busy, next_use)| Case::Reclaim { abandoned, millis, uploads, busy, next_use }),
         check,
     );
 }
